@@ -70,7 +70,7 @@ def frontend_accepts(src, cfg):
         try:
             compile_src(src, cfg, formats=("abi",))
             return True
-        except VyperException as e:
+        except Exception as e:  # incl. compiler crashes: the program is not accepted
             return type(e).__name__
 
 
@@ -80,7 +80,7 @@ def full_compile(src, cfg):
         warnings.simplefilter("ignore")
         try:
             return compile_src(src, cfg, formats=("bytecode",))["bytecode"]
-        except VyperException as e:
+        except Exception as e:
             return e
 
 
